@@ -163,10 +163,16 @@ pub fn exec(rec: &Value, _st: &mut State) -> Value {
                             gr += r;
                         }
                         let n = pts.len() as f64 * s;
+                        // a fit started from its own result (a caller refining a previous answer) must succeed and stay put
+                        let (refit_ok, refit_same) = match Circle2::fitting_circle(&pts, &c, match sg2 { 0 => BestFit::All, k => BestFit::Gaussian(k as f64 / 2.0) }) {
+                            Ok(c2) => (true, ((c2.x() - c.x()).abs() + (c2.y() - c.y()).abs() + (c2.r() - c.r()).abs()) / s < 1.0e-6 * (1.0 + c.r() / s)),
+                            Err(_) => (false, false),
+                        };
                         res.push(json!({"ok": true, "cx": qq.q(c.x() / s, QP), "cy": qq.q(c.y() / s, QP), "r": qq.q(c.r() / s, QP),
-                                        "g": [qq.q(gx / n, QG), qq.q(gy / n, QG), qq.q(gr / n, QG)], "finite": qq.finite}));
+                                        "g": [qq.q(gx / n, QG), qq.q(gy / n, QG), qq.q(gr / n, QG)], "finite": qq.finite,
+                                        "refit_ok": refit_ok, "refit_same": refit_same}));
                     }
-                    Err(_) => res.push(json!({"ok": false, "cx": 0, "cy": 0, "r": 0, "g": [0, 0, 0], "finite": true})),
+                    Err(_) => res.push(json!({"ok": false, "cx": 0, "cy": 0, "r": 0, "g": [0, 0, 0], "finite": true, "refit_ok": true, "refit_same": true})),
                 }
             }
             json!({ "res": res })
